@@ -208,7 +208,13 @@ Definition norm2 (rows : list (feat * feat * Q)) : list (feat * feat * Q) :=
   let lo := qmin (map snd rows) in let hi := qmax (map snd rows) in
   map (fun '(a, b, s) => (a, b, minmax lo hi s)) rows.
 
-Definition build_inst (lbl : feat) (T : list triplet) : inst :=
+(* The code divides by (max - min) of each non-empty table in floating point: with all values equal that is 0/0 = NaN, the
+   dictionaries hold NaN and rank_features_3MR emits None.  Such tables have no instance: [build_inst] is partial. *)
+Definition caller_degenerate (lbl : feat) (T : list triplet) : bool :=
+  degenerate (map snd (relevance_rows lbl T)) || degenerate (map snd (relation_rows lbl T))
+  || degenerate (map snd (redundancy_rows lbl T)).
+
+Definition build_inst_total (lbl : feat) (T : list triplet) : inst :=
   let relr := norm1 (relevance_rows lbl T) in
   let rlnr := norm2 (relation_rows lbl T) in
   let redr := norm2 (redundancy_rows lbl T) in
@@ -218,3 +224,6 @@ Definition build_inst (lbl : feat) (T : list triplet) : inst :=
      red := fold_left (fun d '(a, b, s) => set2 d a b s) redr [];
      rln := rln2;
      strat := Median; alpha := 1; beta := 1 |}.
+
+Definition build_inst (lbl : feat) (T : list triplet) : option inst :=
+  if caller_degenerate lbl T then None else Some (build_inst_total lbl T).
